@@ -53,6 +53,8 @@ package parse
 // except the return to lexString at the closing brace of an interpolation.
 //@   ensures term: result == nil ==> a0.mode == modeClosed || old(a0.mode) == modeInterpolate
 //@   ensures nointerp: old(a0.mode) != modeInterpolate ==> a0.mode != modeInterpolate
+// tokens already sent stay sent
+//@   ensures keep: sentcount(a0.tokens) >= old(sentcount(a0.tokens)) && (forall i :: i < old(sentcount(a0.tokens)) ==> sent(a0.tokens, i, "token") == old(sent(a0.tokens, i, "token")))
 
 //@ func parse.(*lexer).tokenize
 //@   requires sinv(l) && l.mode == modeNormal
@@ -121,6 +123,7 @@ package parse
 //@   requires linv(l) && l.mode != modeClosed
 //@   ensures inv: linv(l) && l.pos == old(l.pos) && l.start == old(l.start) && sameview(l.input, old(l.input))
 //@   ensures closed: l.mode == modeClosed
+//@   ensures keep: forall i :: i < old(sentcount(l.tokens)) ==> sent(l.tokens, i, "token") == old(sent(l.tokens, i, "token"))
 // C20: an error token carries the position of the emission point
 //@   ensures pos: sent(l.tokens, old(sentcount(l.tokens)), "token").Line == old(l.line) && sent(l.tokens, old(sentcount(l.tokens)), "token").Offset == old(l.offset)
 //@   ensures nil: result == nil
@@ -148,6 +151,7 @@ package parse
 //@ func parse.(*lexer).tryLexOperator
 //@   requires sinv(l)
 //@   ensures inv: sinv(l) && sameview(l.input, old(l.input)) && l.mode == old(l.mode)
+//@   ensures keep: sentcount(l.tokens) >= old(sentcount(l.tokens)) && (forall i :: i < old(sentcount(l.tokens)) ==> sent(l.tokens, i, "token") == old(sent(l.tokens, i, "token")))
 //@   ensures taken: result ==> l.pos > old(l.pos)
 //@   ensures not: !result ==> l.pos == old(l.pos)
 // C14: an alphabetic operator is recognised exactly when the byte after it is not a name character
@@ -203,10 +207,16 @@ package parse
 //@   loop 1 invariant linv(l) && l.start == l.pos && l.pos >= entry(l.pos) && l.start >= old(l.start) && sameview(l.input, entry(l.input))
 //@   loop 1 invariant mode: l.mode != modeClosed && (l.mode == old(l.mode) || l.mode == modeNormal)
 //@   loop 1 decreases len(l.input) - l.pos
+//@   loop 1 invariant keep: sentcount(l.tokens) >= old(sentcount(l.tokens)) && (forall i :: i < old(sentcount(l.tokens)) ==> sent(l.tokens, i, "token") == old(sent(l.tokens, i, "token")))
+//@   loop 2 invariant keep: sentcount(l.tokens) >= old(sentcount(l.tokens)) && (forall i :: i < old(sentcount(l.tokens)) ==> sent(l.tokens, i, "token") == old(sent(l.tokens, i, "token")))
 //@   loop 2 invariant mono: linv(l) && l.pos >= entry(l.pos) && l.start >= entry(l.start)
 //@   loop 2 invariant input: sameview(l.input, entry(l.input)) || (ins == nil && l.mode == modeClosed)
 //@   loop 2 invariant st: ins != nil ==> sinv(l) && statepre(ins, l)
 //@   loop 2 decreases ite(ins == nil, 0, measure(ins, l))
+// G1: the token after STRING_OPEN is TEXT (possibly empty) or a terminal error token
+//@   asserts g1: sent(l.tokens, old(sentcount(l.tokens)), "token").tokenType == tokenStringOpen && (sent(l.tokens, old(sentcount(l.tokens)) + 1, "token").tokenType == tokenText || sent(l.tokens, old(sentcount(l.tokens)) + 1, "token").tokenType == tokenError)
+//@   loop 1 invariant g1: sentcount(l.tokens) >= old(sentcount(l.tokens)) + 1 && sent(l.tokens, old(sentcount(l.tokens)), "token").tokenType == tokenStringOpen && (sentcount(l.tokens) >= old(sentcount(l.tokens)) + 2 ==> sent(l.tokens, old(sentcount(l.tokens)) + 1, "token").tokenType == tokenText)
+//@   loop 2 invariant g1: sentcount(l.tokens) >= old(sentcount(l.tokens)) + 2 && sent(l.tokens, old(sentcount(l.tokens)), "token").tokenType == tokenStringOpen && sent(l.tokens, old(sentcount(l.tokens)) + 1, "token").tokenType == tokenText
 
 // ---------------------------------------------------------------------------------------
 // Layer T — token stream and push-back (parse.go)
@@ -220,7 +230,8 @@ package parse
 //@ ghost parse.lexer rcv int
 //@ ghost parse.lexer term int
 //@ pred terminal(tok token) = tok.tokenType == tokenEOF || tok.tokenType == tokenError
-//@ pred streamOK(l *lexer) = l.term >= 0 && terminal(l.stream[l.term]) && (forall k trig :: 0 <= k && k < l.term ==> !terminal(l.stream[k])) && (forall k trig :: k >= l.term ==> l.stream[k] == l.stream[l.term])
+// G1 (proved on the lexer side: lexString#post:g1): STRING_OPEN is followed by a TEXT token or by a terminal token.
+//@ pred streamOK(l *lexer) = (forall k trig :: l.stream[k].tokenType == tokenStringOpen ==> l.stream[k+1].tokenType == tokenText || terminal(l.stream[k+1])) && l.term >= 0 && terminal(l.stream[l.term]) && (forall k trig :: 0 <= k && k < l.term ==> !terminal(l.stream[k])) && (forall k trig :: k >= l.term ==> l.stream[k] == l.stream[l.term])
 
 //@ func parse.(*lexer).nextToken
 //@   trusted
@@ -325,3 +336,277 @@ package parse
 //@ func parse.newMultipleExtendsError
 //@   ensures result != nil
 //@   pure
+
+// ---------------------------------------------------------------------------------------
+// Layer A — node constructors and small accessors are expanded at their call sites (inline):
+// the caller sees the allocation and the field stores themselves.
+//@ func parse.NewNameExpr
+//@   inline
+//@ func parse.NewNullExpr
+//@   inline
+//@ func parse.NewBoolExpr
+//@   inline
+//@ func parse.NewNumberExpr
+//@   inline
+//@ func parse.NewStringExpr
+//@   inline
+//@ func parse.NewFuncExpr
+//@   inline
+//@ func parse.NewFilterExpr
+//@   inline
+//@ func parse.NewTestExpr
+//@   inline
+//@ func parse.NewBinaryExpr
+//@   inline
+//@ func parse.NewUnaryExpr
+//@   inline
+//@ func parse.NewGroupExpr
+//@   inline
+//@ func parse.NewGetAttrExpr
+//@   inline
+//@ func parse.NewTernaryIfExpr
+//@   inline
+//@ func parse.NewKeyValueExpr
+//@   inline
+//@ func parse.NewHashExpr
+//@   inline
+//@ func parse.NewArrayExpr
+//@   inline
+//@ func parse.NewModuleNode
+//@   inline
+//@ func parse.NewBodyNode
+//@   inline
+//@ func parse.NewTextNode
+//@   inline
+//@ func parse.NewCommentNode
+//@   inline
+//@ func parse.NewPrintNode
+//@   inline
+//@ func parse.NewBlockNode
+//@   inline
+//@ func parse.NewIfNode
+//@   inline
+//@ func parse.NewExtendsNode
+//@   inline
+//@ func parse.NewForNode
+//@   inline
+//@ func parse.NewIncludeNode
+//@   inline
+//@ func parse.NewEmbedNode
+//@   inline
+//@ func parse.NewUseNode
+//@   inline
+//@ func parse.NewSetNode
+//@   inline
+//@ func parse.NewDoNode
+//@   inline
+//@ func parse.NewFilterNode
+//@   inline
+//@ func parse.NewMacroNode
+//@   inline
+//@ func parse.NewImportNode
+//@   inline
+//@ func parse.NewFromNode
+//@   inline
+//@ func parse.(*Tree).Root
+//@   inline
+//@ func parse.(*Tree).Blocks
+//@   inline
+//@ func parse.(*Tree).Macros
+//@   inline
+//@ func parse.(*Tree).setBlock
+//@   inline
+//@ func parse.(*Tree).pushBlockStack
+//@   inline
+//@ func parse.(*Tree).popBlockStack
+//@   inline
+//@ func parse.operator.Operator
+//@   inline
+//@ func parse.operator.leftAssoc
+//@   inline
+//@ func parse.Pos.Start
+//@   inline
+//@ func parse.(*BodyNode).Append
+//@   inline
+//@ func parse.newParseError
+//@   inline
+//@ func parse.newBaseError
+//@   inline
+
+// Object invariants (checked at every store to the field and at every allocation; assumed at loads):
+// the embedded *FuncExpr of a filter or test expression is never nil.
+//@ fieldinv parse.FilterExpr.FuncExpr nonnil
+//@ fieldinv parse.TestExpr.FuncExpr nonnil
+
+// ---------------------------------------------------------------------------------------
+// Parser (parse_expr.go, parse_tag.go, parse.go)
+//
+// live: the cursor has not passed the first terminal token. Every parse function that succeeds has
+// consumed non-terminal tokens only, so a loop around it strictly decreases term - cur and terminates
+// when the stream ends (C01: every parser loop has an EOF arm and an error arm).
+//@ pred live(t *Tree) = tcur(t) <= t.lex.term
+// good: an interface value holding a non-nil pointer (every Expr/Node implementation is a pointer type)
+//@ pred good(e Expr) = e != nil && ref(e) != 0
+//@ pred goodn(n Node) = n != nil && ref(n) != 0
+//@ pred tinv(t *Tree) = twf(t) && live(t) && t.root != nil && len(t.blocks) >= 1 && t.macros != nil
+
+//@ func parse.(*Tree).parseExpr
+//@   requires tinv(t)
+//@   ensures wf: tinv(t) && tcur(t) >= old(tcur(t))
+//@   ensures ok: err == nil ==> good(r0) && tcur(t) > old(tcur(t))
+
+//@ func parse.(*Tree).parseInnerExpr
+//@   requires tinv(t)
+//@   ensures wf: tinv(t) && tcur(t) >= old(tcur(t))
+//@   ensures ok: err == nil ==> good(r0) && tcur(t) > old(tcur(t))
+//@   loop 1 invariant tinv(t) && tcur(t) >= entry(tcur(t))
+//@   loop 1 decreases left(t)
+//@   loop 2 invariant tinv(t) && tcur(t) >= entry(tcur(t))
+//@   loop 2 decreases left(t)
+//@   loop 3 invariant tinv(t) && tcur(t) >= entry(tcur(t)) && tcur(t) > old(tcur(t))
+//@   loop 3 invariant elems: local(exprs) && (forall j :: 0 <= j && j < len(exprs) ==> good(exprs[j]))
+// G1: right after STRING_OPEN comes a TEXT token, so the list of parts is never empty at STRING_CLOSE
+//@   loop 3 invariant first: len(exprs) == 0 ==> tcur(t) == entry(tcur(t)) && tokAt(t, tcur(t) - 1).tokenType == tokenStringOpen
+//@   loop 3 decreases left(t)
+//@   loop 4 invariant 1 <= i && i <= ln && ln == len(exprs) && (i > 1 ==> res != nil) && tinv(t) && tcur(t) > old(tcur(t))
+//@   loop 4 invariant elems: local(exprs) && (forall j :: 0 <= j && j < len(exprs) ==> good(exprs[j]))
+//@   loop 4 decreases ln - i
+
+//@ func parse.(*Tree).parseOuterExpr
+//@   requires tinv(t) && good(expr)
+//@   ensures wf: tinv(t) && tcur(t) >= old(tcur(t))
+//@   ensures ok: err == nil ==> good(r0)
+
+//@ func parse.(*Tree).parseRightTestOperand
+//@   requires tinv(t)
+//@   ensures wf: tinv(t) && tcur(t) >= old(tcur(t))
+//@   ensures ok: err == nil ==> r0 != nil && tcur(t) > old(tcur(t))
+
+//@ func parse.(*Tree).parseFunc
+//@   requires tinv(t) && name != nil
+//@   ensures wf: tinv(t) && tcur(t) >= old(tcur(t))
+//@   ensures ok: err == nil ==> good(r0) && tcur(t) > old(tcur(t))
+//@   loop 1 invariant tinv(t) && tcur(t) >= entry(tcur(t))
+//@   loop 1 decreases left(t)
+
+// parse(): one construct. A nil node without error means the EOF token was consumed.
+//@ func parse.(*Tree).parse
+//@   requires tinv(t)
+//@   ensures wf: tinv(t) && tcur(t) >= old(tcur(t))
+//@   ensures ok: err == nil && r0 != nil ==> tcur(t) > old(tcur(t))
+//@   ensures eof: err == nil && r0 == nil ==> tokAt(t, tcur(t) - 1).tokenType == tokenEOF
+
+//@ func parse.(*Tree).parseTag
+//@   requires tinv(t)
+//@   ensures wf: tinv(t) && tcur(t) >= old(tcur(t))
+//@   ensures ok: err == nil ==> r0 != nil && tcur(t) > old(tcur(t))
+
+//@ func parse.(*Tree).parseUntilEndTag
+//@   requires tinv(t)
+//@   ensures wf: tinv(t) && tcur(t) >= old(tcur(t))
+//@   ensures ok: err == nil ==> r0 != nil && tcur(t) > old(tcur(t))
+
+//@ func parse.contains
+//@   pure
+//@   loop 1 invariant true
+
+//@ func parse.(*Tree).parseUntilTag
+//@   requires tinv(t)
+//@   ensures wf: tinv(t) && tcur(t) >= old(tcur(t))
+//@   ensures ok: err == nil ==> r0 != nil && tcur(t) > old(tcur(t))
+//@   loop 1 invariant tinv(t) && tcur(t) >= old(tcur(t)) && n != nil
+//@   loop 1 decreases left(t)
+
+//@ func parse.parseExtends
+//@   requires tinv(t)
+//@   ensures wf: tinv(t) && tcur(t) >= old(tcur(t))
+//@   ensures ok: err == nil ==> r0 != nil && tcur(t) > old(tcur(t))
+
+//@ func parse.parseBlock
+//@   requires tinv(t)
+//@   ensures wf: tinv(t) && tcur(t) >= old(tcur(t))
+//@   ensures ok: err == nil ==> r0 != nil && tcur(t) > old(tcur(t))
+
+//@ func parse.parseIf
+//@   requires tinv(t)
+//@   ensures wf: tinv(t) && tcur(t) >= old(tcur(t))
+//@   ensures ok: err == nil ==> r0 != nil && tcur(t) > old(tcur(t))
+
+//@ func parse.parseIfBody
+//@   requires tinv(t)
+//@   ensures wf: tinv(t) && tcur(t) >= old(tcur(t))
+//@   ensures ok: err == nil ==> body != nil && els != nil && tcur(t) > old(tcur(t))
+//@   loop 1 invariant tinv(t) && tcur(t) >= old(tcur(t)) && body != nil
+//@   loop 1 decreases left(t)
+
+//@ func parse.parseFor
+//@   requires tinv(t)
+//@   ensures wf: tinv(t) && tcur(t) >= old(tcur(t))
+//@   ensures ok: err == nil ==> r0 != nil && tcur(t) > old(tcur(t))
+
+//@ func parse.parseInclude
+//@   requires tinv(t)
+//@   ensures wf: tinv(t) && tcur(t) >= old(tcur(t))
+//@   ensures ok: err == nil ==> r0 != nil && tcur(t) > old(tcur(t))
+
+//@ func parse.parseEmbed
+//@   requires tinv(t)
+//@   ensures wf: tinv(t) && tcur(t) >= old(tcur(t))
+//@   ensures ok: err == nil ==> r0 != nil && tcur(t) > old(tcur(t))
+//@   loop 1 invariant tinv(t) && tcur(t) >= old(tcur(t)) && len(t.blocks) >= 2
+//@   loop 1 decreases left(t)
+
+//@ func parse.parseIncludeOrEmbed
+//@   requires tinv(t)
+//@   ensures wf: tinv(t) && tcur(t) >= old(tcur(t))
+//@   ensures ok: err == nil ==> good(expr) && tcur(t) > old(tcur(t))
+
+//@ func parse.parseUse
+//@   requires tinv(t)
+//@   ensures wf: tinv(t) && tcur(t) >= old(tcur(t))
+//@   ensures ok: err == nil ==> r0 != nil && tcur(t) > old(tcur(t))
+//@   loop 1 invariant tinv(t) && tcur(t) >= old(tcur(t)) && aliases != nil
+//@   loop 1 decreases left(t)
+
+//@ func parse.parseSet
+//@   requires tinv(t)
+//@   ensures wf: tinv(t) && tcur(t) >= old(tcur(t))
+//@   ensures ok: err == nil ==> r0 != nil && tcur(t) > old(tcur(t))
+
+//@ func parse.parseDo
+//@   requires tinv(t)
+//@   ensures wf: tinv(t) && tcur(t) >= old(tcur(t))
+//@   ensures ok: err == nil ==> r0 != nil && tcur(t) > old(tcur(t))
+
+//@ func parse.parseFilter
+//@   requires tinv(t)
+//@   ensures wf: tinv(t) && tcur(t) >= old(tcur(t))
+//@   ensures ok: err == nil ==> r0 != nil && tcur(t) > old(tcur(t))
+//@   loop 1 invariant tinv(t) && tcur(t) >= old(tcur(t))
+//@   loop 1 decreases left(t)
+
+//@ func parse.parseMacro
+//@   requires tinv(t)
+//@   ensures wf: tinv(t) && tcur(t) >= old(tcur(t))
+//@   ensures ok: err == nil ==> r0 != nil && tcur(t) > old(tcur(t))
+//@   loop 1 invariant tinv(t) && tcur(t) > old(tcur(t))
+//@   loop 1 decreases left(t)
+
+//@ func parse.parseImport
+//@   requires tinv(t)
+//@   ensures wf: tinv(t) && tcur(t) >= old(tcur(t))
+//@   ensures ok: err == nil ==> r0 != nil && tcur(t) > old(tcur(t))
+
+//@ func parse.parseFrom
+//@   requires tinv(t)
+//@   ensures wf: tinv(t) && tcur(t) >= old(tcur(t))
+//@   ensures ok: err == nil ==> r0 != nil && tcur(t) > old(tcur(t))
+//@   loop 1 invariant tinv(t) && tcur(t) > old(tcur(t)) && imports != nil
+//@   loop 1 decreases left(t)
+
+//@ func parse.parseVerbatim
+//@   requires tinv(t)
+//@   ensures wf: tinv(t) && tcur(t) >= old(tcur(t))
+//@   ensures ok: err == nil ==> r0 != nil && tcur(t) > old(tcur(t))
+//@   loop 1 invariant tinv(t) && tcur(t) > old(tcur(t))
+//@   loop 1 decreases left(t)
